@@ -10,7 +10,15 @@ NAME_PARTS = ["00000001", "5000A1B2", "log", "PEL", "pel", "a", "Z", "2024010112
 EXTS = ["", ".pel", ".PEL", ".txt", ".pel.bak", ".", ".json"]
 
 
+SPECIAL_NAMES = [".pel", ".txt", "pel", "a.pel.pel", "apel", ".", "x.l"]
+
+
 def rand_name(rng, used):
+    if rng.random() < 0.12:
+        n = rng.choice(SPECIAL_NAMES)
+        if n not in used and n not in (".", ".."):
+            used.add(n)
+            return n
     for _ in range(100):
         n = "".join(rng.choice(NAME_PARTS) for _ in range(rng.randrange(1, 4))) + rng.choice(EXTS)
         if n not in used and n not in (".", "..") and "/" not in n and len(n.encode()) < 200:
@@ -71,7 +79,12 @@ def gen_dir(model, rng, nfiles, plugins=True, maxsecs=3, maxpayload=24, junk=0, 
 class TempDir:
     def __init__(self, files, subdirs=()):
         self.path = tempfile.mkdtemp(prefix="verif_dir_")
-        for name, data, _ in files:
+        for name, data, meta in files:
+            if meta.get("kind") == "unreadable":
+                # a directory entry that cannot be opened: a symbolic link whose target is gone (what a file purged
+                # between the listing and the read looks like)
+                os.symlink(os.path.join(self.path, "..", "verif_no_such_target"), os.path.join(self.path, name))
+                continue
             with open(os.path.join(self.path, name), "wb") as f:
                 f.write(data)
         for sd in subdirs:
